@@ -174,5 +174,7 @@ pub fn run(tier: Tier, seed: u64) -> i32 {
     ev.floor("decomposition alias vectors attempted", ev.bucket_get("decomposition.alias_attempted"), 2);
     ev.floor("adversarial assignments", ev.bucket_get("adversarial"), 20000);
     ev.floor("end-to-end", ev.bucket_get("end_to_end"), tier.pick(20, 400));
+    ev.floor("near-miss assignments (one sub-identity on one row) refused by the real prover", ev.bucket_get("near_miss.end_to_end"), 40);
+    ev.floor("sub-identities covered by near misses", ev.set_len("near_miss_identities") as u64, 4);
     ev.finish()
 }
